@@ -1,7 +1,7 @@
 """C03 - information content (clauses: ROLE+KIND at the set_K contract sites, GUARD in calculate, K3)"""
 import re
 import absint
-from engines import float_div_sites, kinds_in_type, KIND_FIELDS, kind_of_segment
+from engines import float_div_sites, kinds_in_type, KIND_FIELDS, kind_of_segment, kind_elements
 from prov import Prov, params_of, call_atoms
 
 CLAIM = ("(ROLE+KIND) at every production call of InformationContent::set_{gene,omim_disease,orpha_disease} the `total` argument derives from the "
@@ -72,6 +72,22 @@ def run(ck, prog, ctx):
               where=b.where(t.line))
         foreign = [r for r in cur if r[1] and r[1] != {K}]
         ck.ob("KIND", "%s/%d/current" % (base, i), not foreign, "%s: `current` of %s %s" % (owner, setter, "counts kind %s only" % K if not foreign else "counts another kind: %s" % foreign[0][2]), where=b.where(t.line))
+
+    # ---- a function that computes the IC of exactly one kind touches no other kind (guards, counts, loops)
+    by_body = {}
+    for b, bi, t, setter in sites:
+        root = prog.bodies[b.root] if b.kind == "Closure" and b.root in prog.bodies else b
+        by_body.setdefault(root.id, set()).add(SETTERS[setter])
+    for bid, ks in sorted(by_body.items()):
+        if len(ks) != 1:
+            continue
+        K = next(iter(ks))
+        rb = prog.bodies[bid]
+        els = []
+        for fb in prog.family(rb):
+            els += kind_elements(fb)
+        foreign = [e for e in els if e[0] != K]
+        ck.ob("KIND", "K1/%s" % rb.short, not foreign, "%s (computes the %s IC) %s" % (rb.short, K, "touches no other annotation kind" if not foreign else "reads a %s element: %s" % (foreign[0][0], foreign[0][1])), where=rb.where(foreign[0][2] if foreign else None))
 
     # ---- inside the setters
     calc = prog.body(IC + "::calculate")
